@@ -660,6 +660,11 @@ func (ic *Context) AddNotification(hash util.Uint160, name string, item *stackit
 			return fmt.Errorf("notification count shouldn't exceed %d", MaxNotificationCount)
 		}
 	}
+	// Notifications are handed out to scripts (System.Runtime.GetNotifications)
+	// and must not be changeable through that, events of native contracts included.
+	if !item.IsReadOnly() {
+		item = stackitem.DeepCopy(item, true).(*stackitem.Array)
+	}
 	ic.Notifications = append(ic.Notifications, state.NotificationEvent{
 		ScriptHash: hash,
 		Name:       name,
